@@ -135,6 +135,8 @@ func runHistories(t *testing.T, cfg historyCfg) {
 		g.GasBias = cfg.gasBias
 		histories++
 		st.AddExtra("histories", 1)
+		trace := func() (string, interface{}) { return "history", Trace{Spec: spec, Ops: e.Ops} }
+		hangTrace.Store(&trace)
 		cut := false
 		resyncs := 0
 
@@ -266,6 +268,8 @@ func replayHistory(props []string, setup func(e *Engine, st *Stats)) func(kind s
 			setup(e, NewStats(props[0]))
 		}
 		resyncs := 0
+		trace := func() (string, interface{}) { return "history", Trace{Spec: tr.Spec, Ops: e.Ops} }
+		hangTrace.Store(&trace)
 		for _, op := range tr.Ops {
 			rec := e.Apply(op)
 			if rec == nil {
